@@ -106,12 +106,17 @@ def _finish(u, h, slices_only):
     u.raw("}\n} // verus!\nfn main() {}\n")
 
 
-def emit_slices(u, h):
-    # ---- E6 slices of handle_htlc ----
+def _slices_head(u, h):
     im = h.find("HtlcManager", "impl")
     hh = h.find_fn_in(im, "handle_htlc")
     u._apply(h, im["start"], im["open"] + 1, [])
     u.raw("\n")
+    return hh
+
+
+def emit_prefix_slice(u, h):
+    # ---- E6 slice of handle_htlc: classification prefix ----
+    hh = _slices_head(u, h)
     u.ghost_callees["m:lock"] = "Tracked(w)"
     u.slice(h, hh, "htlc_manager::HtlcManager::handle_htlc#prefix",
             r"^let trampoline = match self\.check_htlc\(req\)", r"before:^\{\s*let mut payments = self\.payments\.lock\(\)",
@@ -119,6 +124,12 @@ def emit_slices(u, h):
             tail="None", wrap_return="Some",
             note="slice handle_htlc#prefix: parameters are handle_htlc's own (&self, req); `return X` wrapped as Some(X), fall-through as None")
     del u.ghost_callees["m:lock"]
+    u.raw("}\n")
+
+
+def emit_gate_slice(u, h):
+    # ---- E6 slice of handle_htlc: the gate under the table lock ----
+    hh = _slices_head(u, h)
     u.ghost_callees["m:fail"] = "Tracked(g)"
     u.ghost_callees["m:add_htlc"] = "Tracked(g)"
     u.slice(h, hh, "htlc_manager::HtlcManager::handle_htlc#gate",
@@ -129,4 +140,3 @@ def emit_slices(u, h):
                  "sender: oneshot::Sender<HtlcAcceptedResponse> are declared in the unit; each is forced by its use against an extracted real declaration "
                  "(fee_sufficient(u64,u64), PaymentState::{fail,add_htlc}, TrampolineInfo fields)")
     u.raw("}\n")
-
